@@ -503,7 +503,7 @@ Theorem model_auth_cont sch l un pw rem HR :
        | Some su =>
            exists u, oob (U32_MAX_P < nlen (ser u))
                          (after_double_slash dbg hp hpo hd ovr CUrlParser STNotSpecial (nlen sch) (sch ++ [58]) l) u
-                     /\ related dbg shs u su
+                     /\ related dbg shs u su /\ nlen sch <= nlen (ser u)
        end.
 Proof.
   intros Hu Hcan Hns ser0 u1 HPU Hrem Hurem HA Hbs Hok.
@@ -589,7 +589,8 @@ Proof.
               = (((ser0 ++ cred_text un pw) ++ hd host) ++ port_suffix port) ++ flat_map (fun s => 47 :: s) segs) as ->
         by (repeat rewrite <- app_assoc; reflexivity).
       reflexivity.
-    + (* related to the Standard's record *)
+    + split; [|unfold auth_url; cbn [ser]; unfold auth_s0, nlen; repeat rewrite app_length; lia].
+      (* related to the Standard's record *)
       assert (su = spec_auth_url sch un pw sh port segs q f) as ->.
       { rewrite Esu'. rewrite <- Hrem'. rewrite Htail; [reflexivity | reflexivity | | reflexivity | reflexivity].
         unfold is_special. cbn [su_scheme set_port set_host u1]. rewrite <- special_schemes_are_the_standards, Hns. reflexivity. }
@@ -626,7 +627,7 @@ Theorem model_auth sch l : usv_list l -> scheme_canon sch = true -> scheme_type_
   | Some su =>
       exists u, oob (U32_MAX_P < nlen (ser u))
                     (after_double_slash dbg hp hpo hd ovr CUrlParser STNotSpecial (nlen sch) (sch ++ [58]) l) u
-                /\ related dbg shs u su
+                /\ related dbg shs u su /\ nlen sch <= nlen (ser u)
   end.
 Proof.
   intros Hu Hcan Hns T Ha Hb Hc HA. unfold auth_port_bslash, auth_path_text, auth_host_text in *.
